@@ -303,7 +303,7 @@ class Cons(ReadBase):
         cover = [(f'{fmt}+none', f'make fmt={fmt} filt=none seed={rng.randrange(1, 10**6)} n={rng.choice([3, 6])}', 60000, s_)
                  for fmt in MAKE_FORMATS for s_ in ('cbk', 'cb')]
         # structural options of the container formats with large members (state carried from one entry into the next)
-        cover += [(f'{fmt}+none', f'make fmt={fmt} filt=none seed={rng.randrange(1, 10**6)} n=4 big=1 opt={o}', 600000, 'cbk')
+        cover += [(f'{fmt}+none', f'make fmt={fmt} filt=none seed={rng.randrange(1, 10**6)} n=4 big={2 if fmt == "zip" else 1} opt={o}', 600000, 'cbk')
                   for fmt in ('7zip', 'zip', 'xar') for o in MAKE_OPTIONS[fmt]]
         for label, mk, size, fsrc in cover + [m + (None,) for m in made_archives(rng, 20 if tier == 'quick' else 300)]:
             src = fsrc or rng.choice(['cbk', 'cbk', 'cb', 'cbs'])
